@@ -79,6 +79,7 @@ broadcast use {axiom_string_eq_spec, axiom_string_obeys_eq, axiom_to_string_stri
 //%include pair_assert.rs
 //%include pair_provide.rs
 //%include pair_contract.rs
+//%include pair_entry.rs
 }
 pub mod lpvalue {
 use super::*;
